@@ -62,7 +62,10 @@ func ParseArch(arch string) (*Arch, error) {
 		OS:  "any",
 		CPU: "any",
 	}
-	return ret, parseArchInto(ret, arch)
+	if err := parseArchInto(ret, arch); err != nil {
+		return nil, err
+	}
+	return ret, nil
 }
 
 /*
@@ -74,6 +77,14 @@ func parseArchInto(ret *Arch, arch string) error {
 	 * kfreebsd-amd64 (implicitly any-kfreebsd-any)
 	 * bsd-openbsd-i386 */
 	flavors := strings.SplitN(arch, "-", 3)
+	for _, flavor := range flavors {
+		if flavor == "" {
+			/* "", "-amd64", "linux-" or "gnu--amd64": these don't name
+			 * anything, and what they'd be rendered as names something
+			 * else. */
+			return errors.New("Empty component in architecture name")
+		}
+	}
 	switch len(flavors) {
 	case 1:
 		flavor := flavors[0]
